@@ -226,7 +226,11 @@ def gen_history(rng, length):
           t = rng.choice([next_id + 3, 99])          # missing trial
         else:
           t = rng.choice(live)
-        us.append({'t': t, 'kv': kv()})
+        u = {'t': t, 'kv': kv()}
+        if t is not None and t in live and rng.random() < 0.12:
+          # the same trial named by a non-canonical decimal string (int() maps it to the id)
+          u['talias'] = rng.choice(['0%d', '+%d', ' %d', '%d ', '00%d']) % t
+        us.append(u)
       ops.append({'op': 'update', 'us': us})
     else:
       # algorithm-issued delta + freshly created trials carrying metadata
@@ -272,7 +276,7 @@ def run_real(backend, ops):
         for u in o['us']:
           d = req.delta.add()
           if u['t'] is not None:
-            d.trial_id = str(u['t'])
+            d.trial_id = u.get('talias') or str(u['t'])
           d.metadatum.CopyFrom(svc.kv_list([u['kv']])[0])
         resp = sv.UpdateMetadata(req)
         outs.append('notFound' if resp.error_details else 'ok')
@@ -440,7 +444,7 @@ def run_real_policies(backend, ops_by_study, style):
           for u in o['us']:
             d = req.delta.add()
             if u['t'] is not None:
-              d.trial_id = str(u['t'])
+              d.trial_id = u.get('talias') or str(u['t'])
             d.metadatum.CopyFrom(svc.kv_list([u['kv']])[0])
           resp = sv.UpdateMetadata(req)
           outs[key].append('notFound' if resp.error_details else 'ok')
